@@ -1,7 +1,7 @@
 (* SI/Props.v — theorems of property C01 (snapshot isolation and external consistency), over the MVCC store
    model Mvcc/Model.v ([step], [run]) for ALL command sequences obeying the timestamp discipline [oracle_ts]
    (Mvcc/Spec.v), plus an abstract event order for external consistency. Definitions: SI/Model.v. *)
-From Verif Require Import SI.Model SI.ProofsTrans SI.ProofsRead SI.ProofsKeyed SI.AsyncStore SI.TwoPC SI.ProofsWW SI.ProofsIns SI.ProofsInsPoint SI.ProofsLockRead SI.ProofsExt SI.ProofsOracle.
+From Verif Require Import SI.Model SI.ProofsTrans SI.ProofsRead SI.ProofsKeyed SI.AsyncStore SI.TwoPC SI.ProofsWW SI.ProofsIns SI.ProofsInsPoint SI.ProofsLockRead SI.Resolver SI.ProofsExt SI.ProofsOracle.
 
 (* ---- 1. reads are a function of the committed history restricted to commit ts <= read ts *)
 (* a point get on any reachable store answers either the history read at its read ts (at [eff_ts], which is the
@@ -200,6 +200,35 @@ Theorem C01_scan_ok_exact : forall H o, scan_ok H o = true <->
 Proof. exact scan_ok_exact. Qed.
 Print Assumptions C01_scan_ok_exact.
 
+(* ---- 6. the resolver's status cache ([determined] = TxnStatus.StatusCacheable / IsStatusDetermined) *)
+(* (A) an answer the client may memoise is final in the store: the commit record with that commit ts, resp. the rollback
+   record, lies on the checked key. Locks carry a positive TTL (client-go: >= 3 s; see ex_ttl0_not_final). *)
+Theorem C01_status_cacheable_final : forall cmds k s caller cur rine rp d,
+  oracle_ts (cmds ++ [CheckTxnStatus k s caller cur rine rp]) = true ->
+  (forall l, lock_of (run cmds) k = Some l -> 0 < l_ttl l) ->
+  determined (snd (step (run cmds) (CheckTxnStatus k s caller cur rine rp))) = Some d ->
+  record_is (run (cmds ++ [CheckTxnStatus k s caller cur rine rp])) k s d = true.
+Proof. exact cacheable_final. Qed.
+Print Assumptions C01_status_cacheable_final.
+
+(* (B) the memoised answer remains the store's answer: after any further commands (no GC over the start ts, no destroyed
+   range) a status check of that transaction changes nothing and answers the same determined status *)
+Theorem C01_memo_agrees : forall a b k s d caller cur rine rp,
+  oracle_ts (a ++ b) = true -> record_is (run a) k s d = true -> (forall c, In c b -> is_gc_over c s = false) ->
+  exists r, step (run (a ++ b)) (CheckTxnStatus k s caller cur rine rp) = (run (a ++ b), r) /\ determined r = Some d.
+Proof. exact memo_agrees. Qed.
+Print Assumptions C01_memo_agrees.
+
+(* (C) a resolver that skips the request because of a memoised final answer produces the same store, hence the same
+   committed history and the same verdict of the history checker, as one that asks again *)
+Theorem C01_memo_same_history : forall a b k s d caller cur rine rp obs,
+  oracle_ts (a ++ CheckTxnStatus k s caller cur rine rp :: b) = true -> record_is (run a) k s d = true ->
+  determined (snd (step (run a) (CheckTxnStatus k s caller cur rine rp))) = Some d /\
+  run (a ++ CheckTxnStatus k s caller cur rine rp :: b) = run (a ++ b) /\
+  si_ok (full_history (run (a ++ CheckTxnStatus k s caller cur rine rp :: b))) obs = si_ok (full_history (run (a ++ b))) obs.
+Proof. exact memo_skip. Qed.
+Print Assumptions C01_memo_same_history.
+
 (* ------------------------------------------------------------------ non-vacuity *)
 Definition T (r : N) : N := r * 262144.
 Definition ex_cmds : list cmd :=
@@ -314,6 +343,36 @@ Definition ex_trace_bad : list tev :=
     TReq (Prewrite [mkMut MPut 1 33 AsNone false] 1 (T 4) 0 1 0 false); TReq (Commit [1] (T 4) (T 4 + 1)) ].
 Example ex_trules_bad : trules 1 [] 0 [] ex_trace_bad = false /\ oracle_ts (cmds_of ex_trace_bad) = true
   /\ read_at (run (cmds_of (firstn 4 ex_trace_bad))) 1 (T 5) = None /\ read_at (run (cmds_of ex_trace_bad)) 1 (T 5) = Some 33.
+Proof. vm_compute. repeat split. Qed.
+(* resolver cache: a committed answer is final ... *)
+Example ex_status_final :
+  let c := CheckTxnStatus 1 (T 1) (T 5) (T 5) true false in
+  snd (step (run (firstn 2 ex_cmds)) c) = RStatus 0 (T 3) ANoAction
+  /\ determined (snd (step (run (firstn 2 ex_cmds)) c)) = Some (DCommitted (T 3))
+  /\ oracle_ts (firstn 2 ex_cmds ++ [c]) = true /\ record_is (run (firstn 2 ex_cmds)) 1 (T 1) (DCommitted (T 3)) = true
+  /\ record_is (run ex_cmds) 1 (T 1) (DCommitted (T 3)) = true.
+Proof. vm_compute. repeat split. Qed.
+(* ... a LockNotExistDoNothing answer (pessimistic primary lock not there yet) is not: the transaction commits later.
+   [determined] refuses it; memoising it as rolled back would contradict the store's later answer *)
+Definition ex_dn : list cmd :=
+  [ CheckTxnStatus 1 (T 2) (T 5) (T 5) true true;
+    PessLock (mkPessReq [(1, false)] 1 (T 2) (T 6) 3 0 false false false false true);
+    Prewrite [mkMut MPut 1 33 AsNone true] 1 (T 2) (T 6) 3 0 false; Commit [1] (T 2) (T 8);
+    CheckTxnStatus 1 (T 2) (T 9) (T 9) true true ].
+Example ex_do_nothing_not_final : oracle_ts ex_dn = true
+  /\ snd (step [] (nth 0 ex_dn (GC 0 0 0))) = RStatus 0 0 ALockNotExistDoNothing
+  /\ determined (snd (step [] (nth 0 ex_dn (GC 0 0 0)))) = None
+  /\ determined (snd (step (run (firstn 4 ex_dn)) (nth 4 ex_dn (GC 0 0 0)))) = Some (DCommitted (T 8)).
+Proof. vm_compute. repeat split. Qed.
+(* the TTL hypothesis of (A) is needed: over a live lock with TTL 0 the store answers ttl 0 / NoAction, which the client
+   reads as rolled back, although the transaction then commits (client-go never writes such a lock) *)
+Definition ex_ttl0 : list cmd :=
+  [ Prewrite [mkMut MPut 1 17 AsNone false] 1 (T 1) 0 0 0 false; CheckTxnStatus 1 (T 1) (T 1 + 5) (T 1 + 5) true false;
+    Commit [1] (T 1) (T 3) ].
+Example ex_ttl0_not_final : oracle_ts ex_ttl0 = true
+  /\ determined (snd (step (run (firstn 1 ex_ttl0)) (nth 1 ex_ttl0 (GC 0 0 0)))) = Some DRolledBack
+  /\ record_is (run (firstn 2 ex_ttl0)) 1 (T 1) DRolledBack = false
+  /\ record_is (run ex_ttl0) 1 (T 1) (DCommitted (T 3)) = true.
 Proof. vm_compute. repeat split. Qed.
 (* event order: x commits (2PC) and is acknowledged, then y begins *)
 Definition ex_trace : list ev :=
